@@ -259,11 +259,19 @@ _VERIF = os.path.dirname(os.path.dirname(os.path.abspath(__file__)))
 _prop_base: Dict[str, set] = {}
 
 
-def _prop_keys(prop: str, repo: Repo) -> set:
+def _prop_keys(prop: str, repo: Repo, refused: Optional[list] = None) -> set:
+    """Finding keys of the property's rules on `repo`.  With `refused` given, a rule that refuses to judge is recorded there and
+    the others still run (as in runner.run_rules)."""
     ctx = Ctx(repo, 'quick')
     keys = set()
     for rule in registry.PROPERTIES[prop]['rules']:
-        res = registry.rule_fn(rule)(ctx)
+        try:
+            res = registry.rule_fn(rule)(ctx)
+        except AnalysisError as e:
+            if refused is None:
+                raise
+            refused.append(str(e))
+            continue
         for f in res.findings:
             if f.props is None or prop in f.props:
                 keys.add(f.key)
@@ -298,11 +306,9 @@ def eval_corpus(job: tuple) -> dict:
         if prop not in _prop_base:
             _prop_base[prop] = _prop_keys(prop, Repo())
         base = _prop_base[prop]
-        try:
-            new = _prop_keys(prop, Repo(overlay=ov)) - base
-            err = None
-        except AnalysisError as e:
-            new, err = set(), str(e)
+        refused: list = []
+        new = _prop_keys(prop, Repo(overlay=ov), refused) - base
+        err = refused[0] if refused else None
         if expect == 'fire':
             if not new:
                 d['status'] = 'wrong'
